@@ -10,7 +10,7 @@ Nothing is ever committed in /repo.
 """
 import json, os, shutil, subprocess, sys, time
 V = os.path.dirname(os.path.dirname(os.path.abspath(__file__)))
-REPO = "/repo"
+REPO = os.environ.get("PV_REPO", "/repo")
 ALLF = "batteries_included v1_local v2_local v3_local v4_local v1_public v2_public v3_public v4_public"
 ALL_IDS = ["C%02d" % i for i in range(1, 21)]
 
